@@ -123,7 +123,7 @@ def build(seed=20260930):
     import importlib
     SNIPS.clear()
     rng = random.Random(seed)
-    for name in ("scalars", "numpy_elem", "numpy_make", "numpy_index", "numpy_reduce", "alias", "pandas", "text", "rel"):
+    for name in ("scalars", "numpy_elem", "numpy_make", "numpy_index", "numpy_reduce", "alias", "pandas", "text", "rel", "random"):
         try:
             m = importlib.import_module(f"libcheck_corpus_{name}")
         except ModuleNotFoundError as e:
